@@ -490,7 +490,7 @@ package varlink
 //@   ensures [drained C14] wgWaited[addr_wg]
 //@   assert [rearm C15] at call(Accept)#1 : arg0 == l && (timeout != 0 ==> gDlOk)
 //@   assert [account C14] at go#1 : gCntDelta[s] == gAccDelta + 1 && wgAdds[addr_wg] == gAdds + 1 && arg0 == s && arg2 == conn && arg3 == addr_wg && gAccErr == nil
-//@   loop 1 invariant [iter] !held[s] && (gAccErr == nil || gAccTimeout) && l == gBound && l != nil && s.listener == gBound && (timeout == 0 ==> gSetDl == old(gSetDl))
+//@   loop 1 invariant [iter] !held[s] && l == gBound && l != nil && s.listener == gBound && (timeout == 0 ==> gSetDl == old(gSetDl))
 //@   loop 1 decreases *
 
 //@ func (*Service).DoListen {C14 C15 C16 | safety: C10}
@@ -520,7 +520,7 @@ package varlink
 //@   ensures [nolistener C14] old(s.listener) == nil ==> result != nil
 //@   assert [rearm C15] at call(Accept)#1 : arg0 == l && (timeout != 0 ==> gDlOk)
 //@   assert [account C14] at go#1 : gCntDelta[s] == gAccDelta + 1 && wgAdds[addr_wg] == gAdds + 1 && arg0 == s && arg2 == conn && arg3 == addr_wg && gAccErr == nil
-//@   loop 1 invariant [iter] !held[s] && (gAccErr == nil || gAccTimeout) && l == gBound && l != nil && s.listener == gBound && (timeout == 0 ==> gSetDl == old(gSetDl))
+//@   loop 1 invariant [iter] !held[s] && l == gBound && l != nil && s.listener == gBound && (timeout == 0 ==> gSetDl == old(gSetDl))
 //@   loop 1 decreases *
 
 // ---- client side (C02 C03 C11 C12 C13 C18)
